@@ -52,10 +52,13 @@ def build(seed, i, tier, avoid=True, force=None):
     cfg = {"prop": ID, "family": fam, "kind": kind, "wc": rs.random() < 0.5, "threading": True, "oracles": [],
            "uuid_seed": rs.getrandbits(32), "opcode": tier == "thorough" and rs.random() < 0.15}
     init = _thr.init_content(kind, fresh)
-    pre = [{"t": "new_res", "family": fam, "kind": kind, "init": init}]
+    fresh_file = mode == "unbuffered" and avoid and rs.random() < 0.2
+    if fresh_file:
+        init = {} if kind == "dict" else []   # the file does not exist yet: the first write creates it next to the readers
+    pre = [{"t": "new_res", "family": fam, "kind": kind, "init": None if fresh_file else init}]
     for _ in range(nobj):
         pre.append({"t": "new_obj", "rid": 0, "wc": cfg["wc"]})
-    paths = _thr.CHILD_PATHS[kind]
+    paths = _thr.CHILD_PATHS[kind] if not fresh_file else []
     hpaths = [[] for _ in range(nobj)]
     hobj = list(range(nobj))
     for o in range(nobj):
@@ -96,7 +99,8 @@ def build(seed, i, tier, avoid=True, force=None):
             c = get_path(init, hpaths[h])
             k = "dict" if isinstance(c, dict) else "list"
             for attempt in range(20):
-                name, args = _thr.gen_thread_op(rs, fresh, k, c, readers=is_reader)
+                name, args = _thr.gen_thread_op(rs, fresh, k, c, readers=is_reader, attr=ns.families[fam]["attr"] and not hpaths[h] or
+                                                (ns.families[fam]["attr"] and k == "dict"))
                 if is_reader or _thr.allowed(hpaths[h], k, name, args, used):
                     break
             else:
